@@ -239,6 +239,9 @@ trait Ops {
     fn hash128(self: Box<Self>, d: &[u8]) -> [u64; 2];
     fn hash256(self: Box<Self>, d: &[u8]) -> [u64; 4];
     fn tagc(&self) -> char;
+    fn as_any(&self) -> &dyn std::any::Any;
+    /// Clone::clone_from(self, src) when both hold the same hasher type
+    fn clone_from_dyn(&mut self, src: &dyn Ops) -> bool;
 }
 
 macro_rules! ops_common {
@@ -286,6 +289,20 @@ macro_rules! ops_common {
         }
         fn tagc(&self) -> char {
             self.tagc
+        }
+        fn as_any(&self) -> &dyn std::any::Any {
+            self
+        }
+        fn clone_from_dyn(&mut self, src: &dyn Ops) -> bool {
+            match src.as_any().downcast_ref::<Self>() {
+                Some(s) => {
+                    let from = s.get();
+                    let to = self.get_mut();
+                    lib(|| Clone::clone_from(to, from));
+                    true
+                }
+                None => false,
+            }
         }
     };
 }
@@ -567,6 +584,24 @@ fn run_history(lines: &[&str], out: &mut String) {
                     }
                     None => out.push_str("NONE\n"),
                 }
+                alloc_line(out);
+            }
+            "clonefrom" => {
+                // reg[t1].clone_from(&reg[t2]); both must hold the same hasher type
+                let (a, b) = (reg(1), reg(2));
+                if a == b {
+                    panic!("script: clonefrom onto itself");
+                }
+                let mut dst = regs.remove(&a).expect("script: absent register");
+                let ok = {
+                    let src = regs.get(&b).expect("script: absent register");
+                    dst.clone_from_dyn(src.as_ref())
+                };
+                regs.insert(a, dst);
+                if !ok {
+                    panic!("script: clonefrom between different hasher types");
+                }
+                out.push_str("OK\n");
                 alloc_line(out);
             }
             "clone" => {
